@@ -41,6 +41,8 @@ func main() {
 		runParked(*n, *out, raw)
 	case "fallback":
 		runFallback(*n, *out, raw)
+	case "fbring":
+		runFbRing(*n, *out, raw)
 	case "evfifo":
 		runEvFifo(*n, *out, raw)
 	default:
